@@ -126,6 +126,15 @@ Print Assumptions C18_src_pin_common_copy_xattr.
 From XcpProofs Require Import XState.
 From Coq Require Import String.
 Theorem C18_src_no_state_carried_between_files :
-  x_static_items = ["libxcp/src/backup.rs::BAK_REGEX"%string] /\ x_thread_locals = [] /\ x_umask_calls = 0%N.
+  x_static_items = ["libxcp/src/backup.rs::BAK_REGEX"; "libxcp/src/operations.rs::BACKUP_STEP"]%string /\ x_thread_locals = [] /\ x_umask_calls = 0%N.
 Proof. exact x_process_wide_state_ok. Qed.
 Print Assumptions C18_src_no_state_carried_between_files.
+
+(* ---- more glue on this property's path, pinned token for token ---- *)
+From XcpPins Require Import Pin_operations_new Pin_operations_tree_walker.
+Theorem C18_src_pin_operations_new : pin_unchanged name_operations_new.
+Proof. exact pin_operations_new. Qed.
+Theorem C18_src_pin_operations_tree_walker : pin_unchanged name_operations_tree_walker.
+Proof. exact pin_operations_tree_walker. Qed.
+Print Assumptions C18_src_pin_operations_new.
+Print Assumptions C18_src_pin_operations_tree_walker.
